@@ -56,6 +56,7 @@ func (c10) Gen(r *rand.Rand, tier string, idx int) *core.Plan {
 	p.World["stack"] = 0
 	if idx%4 == 3 {
 		p.World["stack"] = 1
+		p.World["remote"] = int64(r.IntN(2)) // present the store as a remote registry (two endpoints)
 	}
 	switch r.IntN(8) {
 	case 0:
